@@ -73,8 +73,9 @@ CLAIMS = {
     text="Coq theorems: the file index after any insert/remove history equals the index of the surviving files (C18_index_refines_fixed, for the repaired RemoveOneFile), module resolution conforms to the documented mapping on the guarded class, type-6 iff no matching file, the three features agree under a unique best match, answers react to create/delete; refutations (dotted path cut, dofile without suffix, created file not re-analysed, ./ prefix) listed. Correspondence: directory trees and event histories through the real server and the exported index functions.",
     design="5/C18", technique="Coq proof (refinement of the index to a set of files by induction over histories; string lemmas) + extracted-model correspondence"),
  "C19": dict(
-    text="Executable Coq model of FindAllSymbol/FindAllLocalVal and the workspace symbol collection, reference declaration list (Spec/SymbolSpec.v); the child range rewrite is repaired (fix: 5912ee6; regression theorems for the deployed model) and witness lemmas (assigned function range, shadowed top local, lost member); outline and workspace/symbol answers of the real server compared with model and reference on generated files, deviations must fall in listed classes. Partial: the positive completeness/containment theorems of DESIGN are not yet proved.",
-    design="5/C19", technique="Coq model + reference, refutation theorems by vm_compute; differential correspondence of documentSymbol / workspace symbol"),
+    text="Coq theorems for ALL files (no fragment restriction; outline_of_bytes = parse, analyse, merge, FindAllSymbol of the repaired code): every entry and child has a well-formed range when the AST Locs are (C19_range_well_formed); every non-function entry contains its declaring identifier and starts at it, children of an entry end inside it (C19_range_contains_decl_partial, C19_children_inside_partial - no hypothesis); completeness: the last declaration of every top-level local, every lexically global assignment target (C19_outline_globals_lexical, Lua scoping) and every function statement has an entry at its declaring identifier (C19_outline_complete_partial); a workspace-symbol candidate exists for every such global (C19_workspace_candidate_partial). "
+         "Full statements are stated and refuted with witnesses where the code deviates (function-valued assignment range, shadowed top-level local, member defined before its global). Correspondence: documentSymbol / workspace symbol of the real server vs model vs reference declaration list; the fuzzy matcher / sort / truncation of workspace/symbol is covered by correspondence only.",
+    design="5/C19, 11", technique="Coq proof (nested induction over the analysis with frame signatures; flat Loc invariants) + refutation witnesses + differential correspondence of documentSymbol / workspace symbol"),
  "C20": dict(
     text="Coq theorems, one per check: reported(type) <-> documented pattern at exactly that node (C20_t21/t15/t16/t13/t7/t8/t20/t5/t14/t19 iff, exact or under a stated guard with non-vacuity examples), the published reports are exactly the checks of visited nodes, each once (C20_once), visited = all nodes under the stated guard; CompExp = structural equality modulo Locs without constructors; 13 refutation witnesses computed from source text, listed as findings; C20_full_refuted. Correspondence: type 5/7/8/13/14/15/16/19/20/21 diagnostics of the real analysis on generated programs.",
     design="5/C20", technique="Coq proof (per-check iff by induction over the AST, NoDup of reports) + refutation witnesses + extracted-model correspondence"),
